@@ -647,3 +647,31 @@ Proof.
     intros [g' [E H]]. inversion E; subst. exact H.
   - split; [discriminate|intros [g [E _]]; discriminate].
 Qed.
+
+(* ================================================================ the whole-document range (open finding) *)
+Lemma line_lens_scan_length : forall t cur off asc,
+  length (line_lens_from t cur) = S (length (fst (scan t off asc))).
+Proof.
+  induction t as [|c r IH]; intros cur off asc; cbn [line_lens_from scan].
+  - reflexivity.
+  - destruct (is_break c r).
+    + specialize (IH 0 (off + blen c) true).
+      destruct (scan r (off + blen c) true) as [ss fs]. cbn [fst length] in *. rewrite IH. reflexivity.
+    + apply IH.
+Qed.
+
+Lemma line_lens_count : forall t, N.of_nat (length (line_lens t)) = line_count (parse t).
+Proof.
+  intros t. unfold line_lens, line_count, parse.
+  rewrite (line_lens_scan_length t 0 0 true).
+  destruct (scan t 0 true) as [ss fs]. cbn [fst line_offsets length]. reflexivity.
+Qed.
+
+Lemma document_lsp_range_refuted : forall t, range_in_doc (line_lens t) (document_lsp_range t) = false.
+Proof.
+  intros t. unfold range_in_doc, document_lsp_range. cbn [fst snd].
+  assert (pos_in_doc (line_lens t) (line_count (parse t), 0) = false) as E.
+  { unfold pos_in_doc, nth_len. cbn [fst snd]. rewrite line_lens_count.
+    destruct (N.leb_spec (line_count (parse t)) (line_count (parse t))); [reflexivity|lia]. }
+  rewrite E. rewrite andb_false_r. reflexivity.
+Qed.
